@@ -204,6 +204,8 @@ def run_path(interp, fi, contract, case, ci, script):
     for i, e in enumerate(contract.get('ensures', []) + case.get('ensures', [])):
         v = interp.eval_spec(e, fr1)
         interp.oblige('%s.post%d' % (key, i), v, 'post', line, note=e)
+    # vacuity canary: `False` at a reachable normal exit must NOT be provable
+    interp.oblige('%s.canary' % key, z3.BoolVal(False), 'canary', line, note='must not be provable (vacuity guard)')
     check_frame(interp, fi, contract, selfobj, oldenv, exceptional=False)
 
 
